@@ -281,6 +281,75 @@ def hashModel (alg : String) (data : List UInt8) (hr : Option (List HashRange)) 
         | .error o => o.out
         | .ok st => .ok st.absorbed st.prog
 
+/-! ### environment: worker threads cannot be created
+
+`std::thread::Builder::new().name(..).spawn(..)?` fails when the OS refuses a new thread
+(EAGAIN, no memory for the stack): the `?` turns the `io::Error` into `Error::IoError`, after
+the progress calls made so far, before the next chunk is read. `spawnOk = false` is an
+environment in which every spawn fails; with `spawnOk = true` the functions below coincide
+with the ones above (`hashModelE_true`, Lemmas/C13Env.lean). A range that fits one chunk
+never spawns. (`Error::ThreadReceiveError` needs the worker to drop the sender without
+sending, i.e. `Hasher::update` to panic: not reachable.) -/
+
+def chunkLoopE (spawnOk : Bool) (data : List UInt8) (buf total : Nat) (cancel : Option Nat) :
+    Nat → Nat → List UInt8 → Nat → St → Except Stop St
+  | 0, _, _, _, _ => .error (.panic .fuel)
+  | fuel + 1, pos, chunk, left, st =>
+    if left < chunk.length then .error (.panic .arith)
+    else
+      let left' := left - chunk.length
+      if left' = 0 then .ok { st with absorbed := st.absorbed ++ chunk }
+      else if !spawnOk then .error (.err .io st.prog)
+      else
+        let n := min left' buf
+        match readExact data pos n with
+        | none => .error (.err .io st.prog)
+        | some next =>
+          match tick total cancel { st with absorbed := st.absorbed ++ chunk } with
+          | .error o => .error o
+          | .ok st2 => chunkLoopE spawnOk data buf total cancel fuel (pos + n) next left' st2
+
+def runPieceE (spawnOk : Bool) (data : List UInt8) (buf total : Nat) (cancel : Option Nat)
+    (p : Piece) (st : St) : Except Stop St :=
+  match tick total cancel st with
+  | .error o => .error o
+  | .ok st1 =>
+    if p.hi < p.lo then .error (.panic .arith)
+    else if p.hi - p.lo + 1 > u64Max then .error (.panic .arith)
+    else
+      let left := p.hi - p.lo + 1
+      if p.marker then .ok { st1 with absorbed := st1.absorbed ++ be64 p.lo }
+      else
+        let n := min left buf
+        match readExact data p.lo n with
+        | none => .error (.err .io st1.prog)
+        | some chunk => chunkLoopE spawnOk data buf total cancel left (p.lo + n) chunk left st1
+
+def runPiecesE (spawnOk : Bool) (data : List UInt8) (buf total : Nat) (cancel : Option Nat) :
+    List Piece → St → Except Stop St
+  | [], st => .ok st
+  | p :: ps, st =>
+    match runPieceE spawnOk data buf total cancel p st with
+    | .error o => .error o
+    | .ok st1 => runPiecesE spawnOk data buf total cancel ps st1
+
+/-- `hash_stream_by_alg_with_progress_impl` in an environment where thread creation
+succeeds (`spawnOk`) or always fails -/
+def hashModelE (spawnOk : Bool) (alg : String) (data : List UInt8) (hr : Option (List HashRange))
+    (isExcl : Bool) (buf : Nat) (cancel : Option Nat) : Outcome :=
+  if !supported alg then .err .unsupported []
+  else if data.length < 1 then .err .nodata []
+  else
+    match buildPieces data.length hr isExcl with
+    | .error o => o.out
+    | .ok pieces =>
+      match totalOf buf pieces 0 with
+      | .error o => o.out
+      | .ok total =>
+        match runPiecesE spawnOk data buf total cancel pieces {} with
+        | .error o => o.out
+        | .ok st => .ok st.absorbed st.prog
+
 /-! ### the read-ahead pipeline as a two-actor system
 
 One range with chunks `c₁ … cₙ` (in read order). `main` holds the chunk it has read; for a
@@ -368,7 +437,9 @@ def handle (toks : List String) : String :=
       if buf = 0 then "bad-request"
       else
         let cancel := if cancelS == "-" then none else cancelS.toNat?
-        (hashModel (field rest "alg") data hr (mode == "excl") buf cancel).str
+        -- `env=nospawn`: every `thread::Builder::spawn` fails; absent / anything else: succeeds
+        let spawnOk := !(field rest "env" == "nospawn")
+        (hashModelE spawnOk (field rest "alg") data hr (mode == "excl") buf cancel).str
     | _, _, _ => "bad-request"
   | _ => "bad-op"
 
